@@ -45,6 +45,12 @@ func runC20(seed uint64, n int, tier string, outDir string) []*Stats {
 		for i := 0; i < nsvc; i++ {
 			scenOneShot(r.U64(), env, i)
 		}
+		// contexts behind the service: directed corpus first, then random clients
+		scenSvcContext(r.U64(), env, 0, "second-dispose")
+		scenSvcContext(r.U64(), env, 1, "cancel-after-dispose")
+		for i := 0; i < nsvc; i++ {
+			scenSvcContext(r.U64(), env, 2+i, "")
+		}
 		cf.AddCases("pkt_out_cases", "bytes * Z * bool * value", "check_pkt", env.pktOut)
 		cf.AddCases("pkt_in_cases", "bytes * Z * bool * value", "check_pkt", env.pktIn)
 	}
